@@ -81,6 +81,8 @@ def main():
         elif argv[i] == "--replay":
             replay = argv[i + 1]
             i += 1
+        elif argv[i] == "--natives-only":
+            os.environ["VERIF_NATIVES_ONLY"] = "1"
         elif argv[i] == "--query":
             only = argv[i + 1]
             i += 1
@@ -139,6 +141,12 @@ def main():
     # ---- symbolic jobs
     jobs = []
     for q in queries:
+        if os.environ.get("VERIF_NATIVES_ONLY"):
+            for v in violations:
+                print(json.dumps(v, default=str)[:1500])
+            for e in errors:
+                print(e[:3000])
+            break
         parts = q.partitions(tier, seed)
         for p in parts:
             jobs.append((q, p))
@@ -200,7 +208,7 @@ def main():
                     r["status"] = "ERROR"
                     errors.append("counterexample of %s %r did not reproduce natively: %s | %s" % (q.name, r["counterexample"], nr, r["messages"][:1]))
             elif r["status"] == "ERROR":
-                errors.append("%s %r: %s" % (q.name, p, json.dumps(r["messages"])[:1500]))
+                errors.append("%s %r: %s" % (q.name, p, " | ".join("%s %s ... %s" % (m.get("state"), m.get("message", "")[:300], m.get("tb", "")[-900:]) for m in r["messages"])))
         running = still
         if stop_launch and pending:
             for q, p in pending:
@@ -228,8 +236,8 @@ def main():
     st = {}
     for r in results:
         st[r["status"]] = st.get(r["status"], 0) + 1
-    print("%s %s: partitions %s, paths %d, solver checks %d, wall %.0fs" % (
-        prop, tier, st, sum(r.get("paths", 0) for r in results), sum(r.get("solver_checks", 0) for r in results), time.time() - t0))
+    print("%s %s: natives %d, partitions %s, paths %d, solver checks %d, wall %.0fs" % (
+        prop, tier, native_runs, st, sum(r.get("paths", 0) for r in results), sum(r.get("solver_checks", 0) for r in results), time.time() - t0))
     if violations:
         return 1
     if errors:
